@@ -560,6 +560,19 @@ def context_features():
       h.Text.set_text("  two  spaces  ")
     out.append(Feature(f"space:{k}-preserve", f, note=f"xml:space=preserve on the {k} subtree"))
 
+  # a partial tts:textDecoration (components None = inherited) under an ancestor that has every component ON: the components the inner
+  # value leaves unspecified must still come from the ancestor after the round trip (writing such a value as `none` would switch them off)
+  for u in (None, True, False):
+    for lt in (None, True, False):
+      for o in (None, True, False):
+        if (u, lt, o) == (None, None, None):
+          continue
+        def f(h, cfg, v=(u, lt, o)):
+          h.P.set_style(SP.TextDecoration, sp.TextDecorationType(True, True, True))
+          h.Span.set_style(SP.TextDecoration, sp.TextDecorationType(*v))
+        out.append(Feature("textDecoration:partial-under-all-on:" + "".join("-" if x is None else ("T" if x else "F") for x in (u, lt, o)), f,
+                           note=f"span textDecoration {(u, lt, o)} inside a paragraph with underline, line-through and overline on"))
+
   def dflt_under(h, cfg):
     subtree_set(h.Body, lambda e: e.set_space(m.WhiteSpaceHandling.PRESERVE))
     subtree_set(h.Span, lambda e: e.set_space(m.WhiteSpaceHandling.DEFAULT))
